@@ -254,6 +254,9 @@ class ProxyLock(object):
             raise RuntimeError('release unlocked lock')
         self.owner = None
         self.events.append(('rel', me))
+        if me is None:
+            # released after the scenario ended (a suspended generator that held the lock is being closed)
+            return
         self.s.unblock(self.name)
         self.s.yield_point(me, ('release', self.name))
 
